@@ -3,6 +3,7 @@
 Theorems: coq/Properties/C17.v.  Ties (correspondence by execution, model at
 binary64 inside coqc):
   int/float  : Python int() / float() acceptance vs Model.py_int / float_lit
+  num        : MIP.mip.datacard.to_float acceptance vs Model.num_lit
   latopt     : main.parse_lattice on option strings vs Model.parse_lattice
   ranges     : Lattice.parse_ranges vs Model.parse_ranges
   surface    : to_surfaces_mcnp + convert_mcnp_surface (every mnemonic, every
@@ -248,6 +249,15 @@ def impl_float_ok(text):
         return False
 
 
+def impl_num_ok(text):
+    from MIP.mip.datacard import to_float
+    try:
+        to_float(text)
+        return True
+    except ValueError:
+        return False
+
+
 def impl_latopt(opts):
     from t4_geom_convert.main import parse_lattice
     out = G.guarded(lambda: parse_lattice(list(opts)))
@@ -422,6 +432,19 @@ def gen_float_strings(rng, n):
     return out
 
 
+def gen_num_strings(rng, n):
+    '''Spellings for to_float: Python floats and the Fortran forms.'''
+    out = ['5.0+0', '5.0d0', '6.40875-2', '1.5d3', '1.5+3', '1-2', '1d', 'd3',
+           '1.5D-3', '+1.-2', '.5+1', '.+1', '1.5e3+2', '1dd2', '1d+2', '1+',
+           '1.5.3', '12', '1e5', '', '-', '+-1', '1.d0', '1.5d+', '1.5-+2',
+           '-.5d-1', '1_0+2', '1e+', '10.0-1', '-1+0', '2.5d0', '1 +2']
+    alpha = '0123456789+-.dDeE'
+    while len(out) < n:
+        out.append(''.join(rng.choice(alpha)
+                           for _ in range(rng.randint(0, 7))))
+    return out
+
+
 def gen_range_string(rng, bad=False):
     def intsp():
         val = rng.choice([0, 0, 1, 2, 4, 5, -1, -3, 10, 12])
@@ -563,7 +586,10 @@ def gen_cell_option(rng):
             tr = [30.0 * i for i in range(k)]
             if k == 13:
                 tr[-1] = rng.choice([1.0, -1.0])
-            parts.append('*fill=4 (' + ' '.join(G.num(v) for v in tr) + ')')
+            if rng.random() < 0.15:
+                tr = []          # *FILL=n () : no transformation
+            parts.append('*fill=4 (' + ' '.join(
+                G.fortran_num(v, rng.randrange(8)) for v in tr) + ')')
         elif kind == 'fillarr':
             nr = rng.choice([1, 2, 3])
             ranges = [(rng.choice([-1, 0]), rng.choice([0, 1]))
@@ -588,14 +614,18 @@ def gen_cell_option(rng):
                 tr = [rng.choice([1, 2, 3, 4])]
             if k == 13:
                 tr[-1] = rng.choice([1.0, -1.0])
-            parts.append('trcl=' + ('(' + ' '.join(G.num(v) for v in tr) + ')'
+            parts.append('trcl=' + ('(' + ' '.join(
+                G.fortran_num(v, rng.randrange(8)) for v in tr) + ')'
                                     if k != 1 else str(tr[0])))
         elif kind == 'startrcl':
             k = rng.choice([3, 6, 9, 12, 13, 4])
             tr = [30.0 * i for i in range(k)]
             if k == 13:
                 tr[-1] = rng.choice([1.0, -1.0])
-            parts.append('*trcl=(' + ' '.join(G.num(v) for v in tr) + ')')
+            if rng.random() < 0.15:
+                tr = []          # *TRCL=() : the identity
+            parts.append('*trcl=(' + ' '.join(
+                G.fortran_num(v, rng.randrange(8)) for v in tr) + ')')
         elif kind == 'u':
             parts.append(f'u={rng.choice(["1", "7", "-2", "2.0"])}')
         elif kind == 'rho':
@@ -693,7 +723,11 @@ def run(res, tier, seed, proofs_ok):
     _tie(res, 'float', 'string * bool', 'check_float_lit',
          [cpair(cstr(s), cbool(impl_float_ok(s))) for s in floats], floats,
          lambda s: (f'float({s!r})', {'input': {'float': s}}))
-    for s in ints + floats:
+    nums = gen_num_strings(rng, 400 if quick else 4000)
+    _tie(res, 'num', 'string * bool', 'check_num_lit',
+         [cpair(cstr(s), cbool(impl_num_ok(s))) for s in nums], nums,
+         lambda s: (f'to_float({s!r})', {'input': {'num': s}}))
+    for s in ints + floats + nums:
         res.seen(('str', s))
     n_opt = 250 if quick else 2500
     opts = [['200,2:5,0:4', '5902,0:5,0:5,0:5', '10,-4:4'], ['malformed'],
@@ -857,7 +891,8 @@ def run(res, tier, seed, proofs_ok):
         names = rng.sample(['imp:n', 'imp:p', 'imp:e', 'imp:n,p'], ncards)
         for name in names:
             m = n if rng.random() < 0.7 else max(1, n + rng.choice([-1, 1, 2]))
-            toks = [rng.choice(['1', '0', '2', '4.5', '1e1']) for _ in range(m)]
+            toks = [rng.choice(['1', '0', '2', '4.5', '1e1', '1+0', '2.5d0',
+                               '40-1']) for _ in range(m)]
             how = rng.random()
             if how < 0.2 and m > 2:
                 toks = toks[:1] + [f'{m - 1}r']
@@ -1062,6 +1097,8 @@ def replay(path):
         print('implementation:', impl_facet(*inp['facet']))
     elif 'int' in inp:
         print('implementation:', impl_int(inp['int']))
+    elif 'num' in inp:
+        print('implementation:', impl_num_ok(inp['num']))
     elif 'float' in inp:
         print('implementation:', impl_float_ok(inp['float']))
     print('recorded:', data.get('what'))
